@@ -50,3 +50,165 @@ func init() {
 		target{Dir: "core/stat", Func: "Slot.recordCompleteFor", Name: "stat_recordCompleteFor", Acts: nodeActs},
 	)
 }
+
+// action tags of the slot chain / entry / api (mirrored by C16_leaf_check.v)
+const (
+	chDefer         = 20 // defer <recover function>
+	chPrepare       = 21 // s.Prepare(ctx)
+	chCheck         = 22 // s.Check(ctx)
+	chResetToPass   = 23 // ctx.RuleCheckResult.ResetToPass()
+	chStoreResult   = 24 // ctx.RuleCheckResult = v                     args: v
+	chStoreReported = 25 // ctx.outcomeReported = b                     args: b
+	chOnPassed      = 26 // s.OnEntryPassed(ctx)
+	chOnBlocked     = 27 // s.OnEntryBlocked(ctx, blockErr)             args: blockErr
+	chOnCompleted   = 28 // s.OnCompleted(ctx)
+	chSetError      = 29 // ctx.SetError(err)
+	chRecover       = 30 // recover()
+	chLoopPrep      = 31 // the prepare loop
+	chLoopCheck     = 32 // the rule-check loop                          args: ruleCheckRet before the loop
+	chLoopStat      = 33 // the statistic loop                           args: ruleCheckRet
+	chNewPass       = 34 // NewTokenResultPass()
+	chReset         = 35 // c.Reset()
+	chPoolPut       = 36 // sc.ctxPool.Put(c)
+	chStoreStart    = 37 // ctx.startTime = v                           args: v
+)
+
+func init() {
+	chainHints := map[string]hint{
+		"sc.statPres":         {"preps", "slice"},
+		"sc.ruleChecks":       {"checks", "slice"},
+		"sc.stats":            {"stats", "slice"},
+		"ctx.RuleCheckResult": {"ctx_result", "iface"},
+		"ctx.Entry()":         {"ctx_entry", "iface"},
+		"ctx.IsBlocked()":     {"ctx_blocked", "bool"}}
+	refs := []string{"*TokenResult"}
+	refCalls := map[string]hint{"IsBlocked": {"is_blocked", "bool"}, "blockErr": {"block_err_of", "iface"}}
+	stores := map[string]act{
+		"ctx.RuleCheckResult": {Tag: chStoreResult, Keep: []int{0}},
+		"ctx.outcomeReported": {Tag: chStoreReported, Keep: []int{0}}}
+	entry := func(name string, t target) target {
+		t.Dir, t.Func, t.Name = "core/base", "SlotChain.Entry", name
+		t.Hints, t.RefTypes, t.RefCalls, t.Stores = chainHints, refs, refCalls, stores
+		return t
+	}
+	targets = append(targets,
+		// ---- SlotChain.Entry: what runs between the three loops, what goes into / comes out of each ----
+		entry("chain_Entry_frame", target{
+			Acts:      map[string]act{"defer": {Tag: chDefer}, "ctx.RuleCheckResult.ResetToPass": {Tag: chResetToPass}},
+			LoopMarks: map[int]act{1: {Tag: chLoopPrep}, 2: {Tag: chLoopCheck}, 3: {Tag: chLoopStat}}}),
+		// the deferred function: SetError iff something was recovered
+		entry("chain_Entry_recover", target{Lit: 1, Acts: map[string]act{"ctx.SetError": {Tag: chSetError},
+			"recover": {Tag: chRecover, Ret: hint{"panic_val", "iface"}}}}),
+		// ONE iteration of each loop
+		entry("chain_Entry_prepare_step", target{LoopBody: 1, LoopAny: true,
+			Acts: map[string]act{"<range>.Prepare": {Tag: chPrepare}}}),
+		entry("chain_Entry_check_step", target{LoopBody: 2, LoopAny: true,
+			Acts: map[string]act{"<range>.Check": {Tag: chCheck, Ret: hint{"check_res", "iface"}}}}),
+		entry("chain_Entry_stat_step", target{LoopBody: 3, LoopAny: true,
+			Acts: map[string]act{"<range>.OnEntryPassed": {Tag: chOnPassed}, "<range>.OnEntryBlocked": {Tag: chOnBlocked, Keep: []int{1}}}}),
+		// ---- SlotChain.EntryPassedOnPanic ----
+		target{Dir: "core/base", Func: "SlotChain.EntryPassedOnPanic", Name: "chain_EntryPassedOnPanic",
+			Hints: chainHints, RefTypes: refs, Stores: stores,
+			Acts: map[string]act{"defer": {Tag: chDefer}, "ctx.RuleCheckResult.ResetToPass": {Tag: chResetToPass},
+				"NewTokenResultPass": {Tag: chNewPass, Ret: hint{"new_pass", "iface"}}},
+			LoopMarks: map[int]act{1: {Tag: chLoopStat}}},
+		target{Dir: "core/base", Func: "SlotChain.EntryPassedOnPanic", Name: "chain_EntryPassedOnPanic_step", LoopBody: 1, LoopAny: true,
+			Hints: chainHints, RefTypes: refs, Stores: stores,
+			Acts: map[string]act{"<range>.OnEntryPassed": {Tag: chOnPassed}}},
+		// ---- SlotChain.exit: nothing for a nil / entry-less / blocked context, else OnCompleted of every statistic slot ----
+		target{Dir: "core/base", Func: "SlotChain.exit", Name: "chain_exit",
+			Hints: chainHints, LoopMarks: map[int]act{1: {Tag: chLoopStat}}, Acts: map[string]act{"defer": {Tag: chDefer}}},
+		target{Dir: "core/base", Func: "SlotChain.exit", Name: "chain_exit_step", LoopBody: 1, LoopAny: true,
+			Hints: chainHints, Acts: map[string]act{"<range>.OnCompleted": {Tag: chOnCompleted}}},
+		// ---- the context pool ----
+		target{Dir: "core/base", Func: "SlotChain.RefurbishContext", Name: "chain_RefurbishContext",
+			Acts: map[string]act{"c.Reset": {Tag: chReset}, "sc.ctxPool.Put": {Tag: chPoolPut}}},
+		target{Dir: "core/base", Func: "SlotChain.GetPooledContext", Name: "chain_GetPooledContext",
+			Hints:  map[string]hint{"sc.ctxPool.Get().(*EntryContext)": {"", "opaque"}, "util.CurrentTimeMillis()": {"now", "uint64"}},
+			Stores: map[string]act{"ctx.startTime": {Tag: chStoreStart, Keep: []int{0}}},
+			Acts:   map[string]act{"defer": {Tag: chDefer}},
+			NilRes: []string{"*EntryContext"}, Errs: map[string]int{"ctx": 1}},
+	)
+}
+
+// action tags of SentinelEntry.Exit and api.entry (mirrored by C01_leaf_check.v / C16_leaf_check.v)
+const (
+	exLoopOpts     = 40 // for _, opt := range exitOps { opt(&options) }
+	exOnce         = 41 // e.exitCtl.Do(func)
+	exSetError     = 42 // ctx.SetError(options.err)                  args: err
+	exLoopHandlers = 43 // the exit-handler loop
+	exHandler      = 44 // handler(e, ctx)
+	exChainExit    = 45 // e.sc.exit(ctx)
+	exStoreExited  = 46 // atomic.StoreUint32(&e.exited, v)           args: v
+	exRefurbish    = 47 // e.sc.RefurbishContext(ctx)
+
+	apiNewWrapper  = 50 // base.NewResourceWrapper(resource, type, traffic)   args: type, traffic
+	apiNewEntry    = 51 // base.NewSentinelEntry(ctx, rw, sc)
+	apiGetContext  = 52 // sc.GetPooledContext()
+	apiStoreRes    = 53 // ctx.Resource = rw
+	apiStoreBatch  = 54 // ctx.Input.BatchCount = v                   args: v
+	apiStoreFlag   = 55 // ctx.Input.Flag = v                         args: v
+	apiStoreArgs   = 56 // ctx.Input.Args = v                         args: v (the copy)
+	apiStoreAttach = 57 // ctx.Input.Attachments = options.attachments
+	apiSetEntry    = 58 // ctx.SetEntry(e)                            args: e
+	apiChainEntry  = 59 // sc.Entry(ctx)
+	apiPassedPanic = 60 // sc.EntryPassedOnPanic(ctx)
+	apiDeepCopy    = 61 // base.NewBlockErrorFromDeepCopy(err)        args: err
+	apiExit        = 62 // e.Exit()
+)
+
+func init() {
+	exitHints := map[string]hint{
+		"e.ctx":       {"", "opaque"},
+		"options.err": {"opt_err", "iface"},
+		"e.sc":        {"sc", "iface"}}
+	exit := func(name string, t target) target {
+		t.Dir, t.Func, t.Name, t.Hints = "core/base", "SentinelEntry.Exit", name, exitHints
+		return t
+	}
+	targets = append(targets,
+		// ---- SentinelEntry.Exit: options, nil context, everything else inside the Once ----
+		exit("entry_Exit", target{
+			Acts:      map[string]act{"e.exitCtl.Do": {Tag: exOnce}, "defer": {Tag: chDefer}},
+			LoopMarks: map[int]act{1: {Tag: exLoopOpts}}}),
+		// the function run by the Once: defer, error of this exit, handlers, chain exit
+		exit("entry_Exit_once", target{Lit: 1,
+			Acts: map[string]act{"defer": {Tag: chDefer}, "ctx.SetError": {Tag: exSetError, Keep: []int{0}},
+				"e.sc.exit": {Tag: exChainExit}},
+			LoopMarks: map[int]act{1: {Tag: exLoopHandlers}}}),
+		// ONE iteration of the handler loop: a handler's error does not stop the loop
+		exit("entry_Exit_handler_step", target{Lit: 1, LoopBody: 1, LoopAny: true,
+			Acts: map[string]act{"<range>": {Tag: exHandler, Ret: hint{"handler_err", "iface"}}}}),
+		// its deferred function: recover, exited := 1, context back to the pool - in that order
+		exit("entry_Exit_deferred", target{Lit: 2,
+			Acts: map[string]act{"atomic.StoreUint32": {Tag: exStoreExited, Keep: []int{1}},
+				"e.sc.RefurbishContext": {Tag: exRefurbish}, "recover": {Tag: chRecover, Ret: hint{"panic_val", "iface"}}}}),
+		// ---- api.entry ----
+		target{Dir: "api", Func: "entry", Name: "api_entry",
+			RefTypes: []string{"*base.SentinelEntry", "*base.BlockError"},
+			RefCalls: map[string]hint{"Status": {"status_of", "uint8"}, "BlockError": {"block_err_of", "iface"}},
+			Hints: map[string]hint{
+				"options.resourceType":                        {"resourceType", "int32"},
+				"options.entryType":                           {"entryType", "int32"},
+				"options.slotChain":                           {"chain", "iface"},
+				"len(options.args)":                           {"args_len", "int"},
+				"len(options.attachments)":                    {"attachments_len", "int"},
+				"append(ctx.Input.Args[:0], options.args...)": {"args_copy", "iface"}},
+			Stores: map[string]act{
+				"ctx.Resource":          {Tag: apiStoreRes},
+				"ctx.Input.BatchCount":  {Tag: apiStoreBatch, Keep: []int{0}},
+				"ctx.Input.Flag":        {Tag: apiStoreFlag, Keep: []int{0}},
+				"ctx.Input.Args":        {Tag: apiStoreArgs, Keep: []int{0}},
+				"ctx.Input.Attachments": {Tag: apiStoreAttach}},
+			Acts: map[string]act{
+				"base.NewResourceWrapper":        {Tag: apiNewWrapper, Keep: []int{1, 2}, Ret: hint{"", "opaque"}},
+				"base.NewSentinelEntry":          {Tag: apiNewEntry, Ret: hint{"new_entry", "iface"}},
+				"sc.GetPooledContext":            {Tag: apiGetContext, Ret: hint{"", "opaque"}},
+				"ctx.SetEntry":                   {Tag: apiSetEntry, Keep: []int{0}},
+				"sc.Entry":                       {Tag: apiChainEntry, Ret: hint{"chain_res", "iface"}},
+				"sc.EntryPassedOnPanic":          {Tag: apiPassedPanic},
+				"base.NewBlockErrorFromDeepCopy": {Tag: apiDeepCopy, Keep: []int{0}, Ret: hint{"copied_err", "iface"}},
+				"e.Exit":                         {Tag: apiExit},
+				"defer":                          {Tag: chDefer}}},
+	)
+}
